@@ -197,6 +197,21 @@ theorem C03_seq_assign_slice_rejects (s : Seq α) (a b : Option Int) (syms : Lis
       syms.length ≠ 1 → s.setSlice a b syms = .error .valueError) :=
   setSlice_rejects s a b syms
 
+/-- `sequence.symbols = value` sets the string to `value`; a symbol outside the alphabet is refused
+with `AlphabetError` (and, the model being a value, the sequence is what it was). -/
+theorem C03_seq_set_symbols (s : Seq α) (syms : List α) :
+    ((∀ y ∈ syms, y ∈ s.alph) → ∃ s', s.setSymbols syms = .ok s' ∧ s'.symbols = .ok syms ∧
+      s'.alph = s.alph ∧ s'.kind = s.kind) ∧
+    ((∃ y ∈ syms, y ∉ s.alph) → s.setSymbols syms = .error .alphabetError) :=
+  setSymbols_spec s syms
+
+/-- `GeneralSequence.as_type(other)`: `other` receives this sequence's symbol string exactly when
+its alphabet extends this one's; otherwise `AlphabetError`. -/
+theorem C03_seq_as_type (a b : Seq α) (x : List α) (ha : a.symbols = .ok x) :
+    (extends_ b.alph a.alph = true → ∃ b', a.asType b = .ok b' ∧ b'.symbols = .ok x ∧ b'.alph = b.alph ∧ b'.kind = b.kind) ∧
+    (extends_ b.alph a.alph = false → a.asType b = .error .alphabetError) :=
+  asType_spec a b x ha
+
 /-- `AlphabetMapper`: when the target alphabet contains every source symbol the mapper can be
 built, and mapping any valid source codes preserves the symbols they denote. -/
 theorem C03_mapper_preserves (src tgt : List α) (hsub : ∀ s ∈ src, s ∈ tgt) :
@@ -566,6 +581,9 @@ example : (Seq.mk 0 [65, 67, 71, 84] [0, 0, 1, 2, 3]).beq (Seq.mk 0 [84, 71, 67,
     (Seq.mk 0 [84, 71, 67, 65] [0, 0, 1, 2, 3]).symbols = .ok [84, 84, 71, 67, 65] := by decide
 example : ((CodonTable.mk (List.replicate 64 8) [14]).withMappings [65, 67, 71, 84] Gen.C03.protAlph [([84, 71, 65], 87)]).map
     (fun t => (t.codons[56]?, t.codons[55]?, t.starts)) = .ok (some 18, some 8, [14]) := by decide +kernel
+example : ((Seq.mk 0 [65, 67] [0, 1, 1]).asType (Seq.mk 0 [65, 67, 71] [2])).bind Seq.symbols = .ok [65, 67, 67] ∧
+    (Seq.mk 0 [65, 67, 71] [2]).asType (Seq.mk 0 [65, 67] []) = .error .alphabetError := by decide
+example : ((Seq.mk 0 [65, 67] [0]).setSymbols [67, 67, 65]).bind Seq.symbols = .ok [67, 67, 65] := by decide
 example : numberToCodon 53 = [3, 1, 1] ∧ codonNumber [3, 1, 1] = some 53 := by decide
 example : complementCodes Gen.C03.nucAmb Gen.C03.complDict [0, 4, 14] = .ok [3, 5, 14] := by decide +kernel
 
